@@ -11,6 +11,7 @@ package main
 
 import (
 	"bytes"
+	"context"
 	"fmt"
 	"io"
 	"regexp"
@@ -112,7 +113,7 @@ func runOptFamily(c *runCtx) error {
 				hangErr = fmt.Errorf("case %d: hang: wait", k)
 			}
 		}
-		switch kind := r.intn(10); kind {
+		switch kind := r.intn(11); kind {
 		case 0, 1, 2: // what a finished bar shows
 			name = "final"
 			which := r.intn(5)  // 0 OnComplete(msg) 1 ClearOnComplete 2 OnAbort(msg) 3 ClearOnAbort 4 both messages
@@ -438,6 +439,34 @@ func runOptFamily(c *runCtx) error {
 			mu.Unlock()
 			if strings.Contains(out, "\x1b") || strings.Contains(out, "ROW") || strings.Contains(out, "EXT") || strings.Contains(out, "%") {
 				fail("a container without refresh on a non-terminal output wrote %q: it must not draw bars or cursor controls", out)
+			}
+		case 9: // a parent context is cancelled under a container of many bars: the last frame shows every bar aborted
+			// (cancelling a context closes its done channel before it cancels its children: the container can be drawing its
+			// last frame while some bar's own context is not cancelled yet)
+			name = "cancelmany"
+			nb := 30 + r.intn(50)
+			cases.WriteString(fmt.Sprintf("X %d %d\n", k, nb))
+			for round := 0; round < 10 && len(bad) == 0; round++ {
+				ctx, cancel := context.WithCancel(context.Background())
+				var buf bytes.Buffer
+				var mu sync.Mutex
+				w := writerFunc(func(p []byte) (int, error) { mu.Lock(); defer mu.Unlock(); return buf.Write(p) })
+				p := mpb.NewWithContext(ctx, mpb.WithOutput(w), mpb.WithAutoRefresh(), mpb.WithRefreshRate(time.Hour), mpb.WithWidth(40))
+				for i := 0; i < nb; i++ {
+					b := p.AddBar(100, mpb.PrependDecorators(decor.OnAbort(decor.Name("RUNNING"), "ABORTED")))
+					b.IncrBy(1 + i%7)
+				}
+				cancel()
+				waitP(p)
+				mu.Lock()
+				out := buf.String()
+				mu.Unlock()
+				if i := strings.LastIndex(out, "\x1b["); i >= 0 {
+					out = out[i:]
+				}
+				if n := strings.Count(out, "RUNNING"); n > 0 {
+					fail("after the context was cancelled the last frame of a container of %d bars shows %d of them running (round %d)", nb, n, round)
+				}
 			}
 		default: // WithWaitGroup: Wait first waits for the user's group
 			name = "waitgroup"
